@@ -87,6 +87,24 @@ def guard_case(kind, prefix):
     return [16, int(kind), list(prefix) + fair(2, 6)]
 
 
+def sig_arena_case(progs, prefix):
+    c = sig_case(progs, prefix)
+    c[0] = 23
+    return c
+
+
+def try_write_case(kind, prefix):
+    return [27, int(kind), list(prefix) + fair(2, 3)]
+
+
+def await_reload_case(kind, prefix):
+    return [29, int(kind), list(prefix) + fair(2, 8)]
+
+
+def dispose_case(prefix):
+    return [30, list(prefix) + fair(2, 6)]
+
+
 def user_write_case(kind, prefix):
     return [18, int(kind), list(prefix) + fair(2, 4)]
 
@@ -182,6 +200,23 @@ def generate(rng, tier):
             yield dict(case=guard_case(kind, sch), kind="guard-two-threads")
     for sch in interleavings([2, 1]):
         yield dict(case=store_read_case(sch), kind="read-vs-store")
+    # ---- audit: arena handles, non-blocking try_write, awaiter vs reload start, disposal of the effect
+    for sch in interleavings([6, 3]):
+        yield dict(case=sig_arena_case([[[0, 2], [0, 3]], [[2]]], sch), kind="sig-arena")
+    for sch in interleavings([3, 3]):
+        yield dict(case=sig_arena_case([[[0, 2]], [[1, 5]]], sch), kind="sig-arena")
+    for _ in range(1500 if thorough else 300):
+        progs = [[[0, rng.randint(2, 9)] if rng.random() < 0.4 else [1, rng.randint(1, 5)] if rng.random() < 0.5 else [2]
+                  for _o in range(rng.choice((1, 2)))] for _t in range(rng.choice((2, 3)))]
+        yield dict(case=sig_arena_case(progs, random_schedule(rng, [3 * len(p) for p in progs])), kind="sig-arena")
+    for kind in (0, 1, 2):
+        for sch in interleavings([2, 1]):
+            yield dict(case=try_write_case(kind, sch), kind="try-write", compare=False)
+        allsch = list(interleavings([7, 4]))
+        for sch in (allsch if thorough else rng.sample(allsch, 150)):
+            yield dict(case=await_reload_case(kind, sch), kind="await-vs-reload-start", compare=False)
+    for sch in interleavings([6, 1]):
+        yield dict(case=dispose_case(sch), kind="effect-disposed", compare=False)
     # ---- 18. awaiting while a user holds the value's write guard
     for kind in (0, 1, 2):
         for sch in interleavings([2, 3]):
@@ -228,6 +263,15 @@ def valid_case(item):
             return c == [15]
         if op == 16:
             return len(c) == 3 and c[1] in (0, 1) and all(t in (0, 1) for t in c[2]) and c[2][-12:] == fair(2, 6)
+        if op == 23:
+            c3 = [3] + list(c[1:])
+            return valid_case(dict(case=c3))
+        if op == 27:
+            return len(c) == 3 and c[1] in (0, 1, 2) and all(t in (0, 1) for t in c[2]) and c[2][-6:] == fair(2, 3)
+        if op == 29:
+            return len(c) == 3 and c[1] in (0, 1, 2) and all(t in (0, 1) for t in c[2]) and c[2][-16:] == fair(2, 8)
+        if op == 30:
+            return len(c) == 2 and all(t in (0, 1) for t in c[1]) and c[1][-12:] == fair(2, 6)
         if op == 18:
             return len(c) == 3 and c[1] in (0, 1, 2) and all(t in (0, 1) for t in c[2]) and c[2][-8:] == fair(2, 4)
         if op == 17:
@@ -288,7 +332,37 @@ def oracle(item, impl):
         if not log or log[-1] != fin:
             return "the notified effect did not run after the last write (last saw %r, signal is %d)" % (log[-1:], fin)
         return None
-    if op == 3:
+    if op == 27:
+        (st1,), st0, fin, hang = impl
+        if hang:
+            return "a thread is blocked forever (try_write scenario)"
+        if st1 == 3:
+            return "a signal write panicked because another thread held a guard of the value (non-blocking try_write)"
+        if st0 != 1 or st1 != 1:
+            return "a thread did not finish within the bounded extra steps"
+        want = {0: (2, 12), 1: (11,), 2: (5,)}[c[1]]
+        if fin not in want:
+            return "final signal value %d is not the result of a sequential order %r" % (fin, want)
+        return None
+    if op == 29:
+        (st, v), edone, hang = impl
+        if hang:
+            return "a thread is blocked forever (await vs reload start)"
+        if not edone:
+            return "the value's task did not finish the reload within the bounded extra steps"
+        if st != 1:
+            return "the awaiter is still pending after the reload completed (lost wake-up)"
+        if v not in (1, 2):
+            return "awaiter resumed with %d, neither the old nor the reloaded value" % v
+        return None
+    if op == 30:
+        ended, hang = impl
+        if hang:
+            return "a thread is blocked forever (effect disposed)"
+        if not ended:
+            return "the disposed effect's task never ended (its receiver was not woken by the dropped sender)"
+        return None
+    if op in (3, 23):
         fin_s, fin_m, pulls, order, sts, hang = impl
         if hang or 2 in sts:
             return "a thread is blocked forever (signal/memo)"
@@ -401,14 +475,23 @@ def classify(item, impl, model):
     """open known findings; the class must also be exhibited by the model on this very schedule
     (KnownClass of the Coq statements), otherwise the failure is reported as a violation"""
     c = item["case"]
-    if isinstance(impl, str) or (isinstance(model, str) and c[0] != 9):
+    if isinstance(impl, str) or (isinstance(model, str) and c[0] not in (9, 27)):
         return None
     msg = oracle(item, impl) or ""
     if c[0] == 4 and "mid-notification read" in msg and oracle(item, model) and "mid-notification read" in oracle(item, model):
         return "F-C19-b"
-    if c[0] == 3 and "stale memo" in msg and "stale memo" in (oracle(item, model) or ""):
+    if c[0] == 27 and "non-blocking try_write" in msg and c[1] in (0, 1):
+        # KnownClass, computed from the schedule alone: thread 1's operation falls between thread 0
+        # taking its guard (its 1st slot) and releasing it (its 2nd slot)
+        sch = c[2]
+        z = [i for i, t in enumerate(sch) if t == 0]
+        o = [i for i, t in enumerate(sch) if t == 1]
+        if len(z) >= 2 and o and z[0] < o[0] < z[1]:
+            return "F-C19-f"
+        return None
+    if c[0] in (3, 23) and "stale memo" in msg and "stale memo" in (oracle(item, model) or ""):
         return "F-C19-d"
-    if c[0] == 3 and "memo read panicked" in msg and "memo read panicked" in (oracle(item, model) or ""):
+    if c[0] in (3, 23) and "memo read panicked" in msg and "memo read panicked" in (oracle(item, model) or ""):
         return "F-C19-e"
     if c[0] == 7 and "signal read panicked" in msg and "signal read panicked" in (oracle(item, model) or ""):
         return "F-C19-f"
@@ -426,15 +509,19 @@ def nontrivial(item, model):
     sched = c[-1]
     if c[0] in (13, 15):
         return True
-    n = {16: lambda: 2, 17: lambda: 2, 18: lambda: 2, 1: lambda: len(c[1]) + 1, 2: lambda: len(c[2]) + 1, 3: lambda: len(c[1]), 4: lambda: 2, 5: lambda: 2,
+    if c[0] == 23:
+        c = [3] + list(c[1:])
+    n = {16: lambda: 2, 17: lambda: 2, 18: lambda: 2, 27: lambda: 2, 29: lambda: 2, 30: lambda: 2, 1: lambda: len(c[1]) + 1, 2: lambda: len(c[2]) + 1, 3: lambda: len(c[1]), 4: lambda: 2, 5: lambda: 2,
          7: lambda: 2, 10: lambda: 2, 11: lambda: 2}[c[0]]()
-    tail = n * (14 if c[0] in (5, 11) else 3 if c[0] == 7 else 6 if c[0] == 16 else 4 if c[0] in (17, 18) else FAIR_ROUNDS)
+    tail = n * (14 if c[0] in (5, 11) else 3 if c[0] == 7 else 6 if c[0] == 16 else 4 if c[0] in (17, 18) else 3 if c[0] == 27 else 8 if c[0] == 29 else 6 if c[0] == 30 else FAIR_ROUNDS)
     pre = sched[:-tail] if tail else sched
     switches = sum(1 for a, b in zip(pre, pre[1:]) if a != b)
     return switches >= 2
 
 
-NAMES = {18: "await vs a user's write guard",
+NAMES = {23: "signal writes / memo pulls through arena handles", 27: "non-blocking try_write of a signal",
+         29: "awaiter vs the start of a reload", 30: "effect disposed while its task is polled",
+         18: "await vs a user's write guard",
          15: "by_ref guard across an await vs reload (one executor thread)",
          16: "sync read guard on another thread vs reload", 17: "sync read vs the store of a reload",
          10: "await path, waker callbacks as yield points", 11: "lock order signal -> memo -> effect",
